@@ -104,14 +104,18 @@ class Highlighter(object):
 
             if lineno > current_line:
                 diff = lineno - current_line
-                if diff > 1:
-                    lines += [""] * (diff - 1)
 
                 if current_type is not None:
                     line += self._styled(current_type, buffer.rstrip("\n"))
 
                 # New line
                 lines.append(line)
+
+                # Lines without a token of their own (a lone continuation
+                # character) come after the line that has just ended
+                if diff > 1:
+                    lines += [""] * (diff - 1)
+
                 line = ""
                 current_line = lineno
                 current_col = 0
